@@ -136,7 +136,16 @@ func (h *inFlightRequestsHandler) addInFlight(streamId int16, managedStreamId bo
 	h.inFlightLock.Lock()
 	defer h.inFlightLock.Unlock()
 	if h.isClosed() {
+		inFlight.cancel()
 		return nil, fmt.Errorf("%v: handler closed", h)
+	}
+	// check again under the write lock: another sender may have registered a request since the first check
+	if len(h.inFlight) == h.maxInFlight {
+		inFlight.cancel()
+		return nil, fmt.Errorf("%v: too many in-flight requests: %v", h, h.maxInFlight)
+	} else if _, found := h.inFlight[streamId]; found {
+		inFlight.cancel()
+		return nil, fmt.Errorf("%v: stream id already in use: %d", h, streamId)
 	}
 	h.inFlight[streamId] = inFlight
 	return inFlight, nil
